@@ -602,6 +602,24 @@ fn run_dispatch(req: &str, e: &str, expect_ok: bool, ev: &J) -> Outcome {
             sel_line(e, d)
         }
     };
+    // a state event read through a timeline enum is read exactly as through the state enum
+    if is_timeline(e) {
+        if let Some(sk) = unique(ev, "state_key") {
+            if !matches!(sk, J::Null) {
+                let se = if is_sync(e) { "AnySyncStateEvent" } else { "AnyStateEvent" };
+                match (&res, observe(se, &text)) {
+                    (Ok(d), Some(Ok(d2))) => {
+                        if d.ctors.first().map(String::as_str) != Some("State") || d.ctors[1..] != d2.ctors[..] || d.state_key != d2.state_key || d.event_type != d2.event_type || d.is_redacted != d2.is_redacted {
+                            t3.push(format!("{e} and {se} read the same state event differently"));
+                        }
+                    }
+                    (Err(()), Some(Err(()))) => {}
+                    (Ok(_), _) => t3.push(format!("{e} accepts a state event that {se} rejects")),
+                    (Err(()), _) => t3.push(format!("{e} rejects a state event that {se} accepts")),
+                }
+            }
+        }
+    }
     Outcome { imp, t3 }
 }
 
@@ -1053,6 +1071,34 @@ fn gen_dispatch(rng: &mut Rng, schemas: &[TypeSchema]) -> Req {
     Req::new(format!("c18.dispatch {e} ok {}", jt::toks(&ev)), cls)
 }
 
+/// State keys whose JSON text needs escapes (quote, backslash, control characters): the timeline enums
+/// look for `state_key` in the raw text before handing the same text to the state enum.
+const ESC_STATE_KEYS: &[&str] = &[
+    "q\"uote", "back\\slash", "line\nbreak", "tab\there", "\u{1}ctl", "rule:\"*\"", "\\", "\"", "\u{8}\u{c}\r", "é\"日本\\", "\u{7f}\u{0}", "a/b\\/c", "\\u0041", "\\\"",
+];
+/// State event types whose state key is a free-form string.
+const FREE_STATE_KEY_TYPES: &[&str] = &["m.policy.rule.room", "m.policy.rule.server", "m.policy.rule.user", "m.room.third_party_invite", "org.example.custom", "com.example.é", "m.room.message2"];
+
+/// A valid state event whose `state_key` needs JSON escapes, through every enum that reads state events.
+fn gen_escaped_state_key(rng: &mut Rng, schemas: &[TypeSchema]) -> Req {
+    let e = *rng.pick(&["AnyTimelineEvent", "AnySyncTimelineEvent", "AnyTimelineEvent", "AnySyncTimelineEvent", "AnyStateEvent", "AnySyncStateEvent", "AnyStrippedStateEvent", "AnyInitialStateEvent"]);
+    let ty = *rng.pick(FREE_STATE_KEY_TYPES);
+    let redacted = if maybe_redacted(e) && rng.chance(1, 4) { Some(*rng.pick(&[1u32, 6, 9, 11])) } else { None };
+    let mode = pick_mode(rng);
+    let Some(b) = build_event(rng, schemas, e, ty, true, redacted, mode) else {
+        return Req::new(format!("c18.raw {}", stok("{}")), "raw");
+    };
+    let mut ev = b.ev;
+    ev.set("state_key", s(rng.pick(ESC_STATE_KEYS)));
+    if rng.chance(1, 3) {
+        add_extras(rng, &mut ev, ty);
+    }
+    if rng.chance(2, 3) {
+        shuffle_deep(rng, &mut ev);
+    }
+    Req::new(format!("c18.dispatch {e} ok {}", jt::toks(&ev)), "dispatch.escaped-state-key")
+}
+
 /// Envelope-level malformations whose outcome the dispatch stage alone decides.
 fn gen_malformed(rng: &mut Rng, schemas: &[TypeSchema]) -> Req {
     let e = *rng.pick(ENUMS);
@@ -1164,7 +1210,88 @@ fn gen_malformed(rng: &mut Rng, schemas: &[TypeSchema]) -> Req {
     Req::new(format!("c18.dispatch {e} {flag} {}", jt::toks(&ev)), format!("malformed.{what}"))
 }
 
+/// Content types whose (de)serialisation is hand-written (no schema model: the T3 oracles are all there is).
+const T3_ONLY_TYPES: &[(&str, &str)] = &[
+    ("state", "m.room.join_rules"),
+    ("messageLike", "m.room.message"),
+    ("messageLike", "m.sticker"),
+    ("messageLike", "m.room.encrypted"),
+    ("messageLike", "m.key.verification.start"),
+    ("messageLike", "m.key.verification.accept"),
+    ("globalAccountData", "m.push_rules"),
+    ("globalAccountData", "m.secret_storage.key.*"),
+    ("toDevice", "m.key.verification.start"),
+    ("toDevice", "m.key.verification.accept"),
+    ("toDevice", "m.room.encrypted"),
+    ("toDevice", "m.secret.request"),
+];
+
+/// `m.room.message` with a msgtype the code does not know: every combination of `m.mentions`
+/// (absent / users / room / both / empty) with `m.relates_to` (absent / reply / thread / reference /
+/// custom relation) and further unknown fields, which the custom msgtype keeps.
+fn gen_custom_msgtype(rng: &mut Rng) -> Req {
+    let mut es: Vec<(String, J)> = vec![
+        ("msgtype".into(), s(rng.pick(&["org.example.custom_msgtype", "com.example.x", "m.custom", "m.tex"]))),
+        ("body".into(), s(rng.pick(&["a", "", "hello world", "q\"uo\\te"]))),
+    ];
+    if rng.chance(1, 2) {
+        es.push(("custom_field".into(), extra_value(rng)));
+    }
+    if rng.chance(1, 3) {
+        es.push(("n".into(), i(rng.range(-3, 100))));
+    }
+    match rng.below(6) {
+        0 => {}
+        1 => es.push(("m.mentions".into(), obj(vec![("user_ids", arr(vec![s("@alice:example.org")]))]))),
+        2 => es.push(("m.mentions".into(), obj(vec![("room", J::Bool(true))]))),
+        3 => es.push(("m.mentions".into(), obj(vec![("user_ids", arr(vec![s("@bob:matrix.org"), s("@alice:example.org")])), ("room", J::Bool(true))]))),
+        4 => es.push(("m.mentions".into(), obj(vec![("user_ids", arr(vec![]))]))),
+        _ => es.push(("m.mentions".into(), obj(vec![]))),
+    }
+    // two of three without a relation: the case no other generator reaches often
+    match rng.below(12) {
+        0 => es.push(("m.relates_to".into(), obj(vec![("m.in_reply_to", obj(vec![("event_id", s("$ev1:example.org"))]))]))),
+        1 => es.push(("m.relates_to".into(), obj(vec![("rel_type", s("m.thread")), ("event_id", s("$ev1:example.org"))]))),
+        2 => es.push(("m.relates_to".into(), obj(vec![("rel_type", s("m.reference")), ("event_id", s("$ev1:example.org"))]))),
+        3 => es.push(("m.relates_to".into(), obj(vec![("rel_type", s("org.example.custom_rel")), ("event_id", s("$ev1:example.org")), ("extra", i(1))]))),
+        _ => {}
+    }
+    let mut c = J::Obj(es);
+    if rng.chance(1, 2) {
+        shuffle_deep(rng, &mut c);
+    }
+    Req::new(format!("c18.content messageLike ok {} {}", stok("m.room.message"), jt::toks(&c)), "content.custom-msgtype")
+}
+
+/// `m.room.join_rules` with an allow list (`restricted`, `knock_restricted`).
+fn gen_join_rules_allow(rng: &mut Rng, schemas: &[TypeSchema]) -> Option<Req> {
+    let t = schema_for(schemas, "state", "m.room.join_rules")?;
+    for _ in 0..16 {
+        let mode = pick_mode(rng);
+        let mut c = schema::gen(rng, &t.content, mode);
+        if matches!(c.get("join_rule").and_then(J::as_str), Some("restricted" | "knock_restricted")) {
+            if rng.chance(1, 2) {
+                c.set("join_rule", s("knock_restricted"));
+            }
+            if rng.chance(1, 2) {
+                shuffle_deep(rng, &mut c);
+            }
+            return Some(Req::new(format!("c18.content state ok {} {}", stok("m.room.join_rules"), jt::toks(&c)), "content.join-rules-allow"));
+        }
+    }
+    None
+}
+
 fn gen_content(rng: &mut Rng, schemas: &[TypeSchema]) -> Req {
+    match rng.below(16) {
+        0 => return gen_custom_msgtype(rng),
+        1 => {
+            if let Some(r) = gen_join_rules_allow(rng, schemas) {
+                return r;
+            }
+        }
+        _ => {}
+    }
     if rng.chance(1, 12) {
         // custom / foreign type: goes to `_Custom`, content is not looked at
         let kind = *rng.pick(KINDS);
@@ -1174,7 +1301,9 @@ fn gen_content(rng: &mut Rng, schemas: &[TypeSchema]) -> Req {
             return Req::new(format!("c18.content {kind} ok {} {}", stok(ty), jt::toks(&c)), "content.custom");
         }
     }
-    let t = rng.pick(schemas);
+    // one request in five on a type with hand-written (de)serialisation
+    let hand: Vec<&TypeSchema> = schemas.iter().filter(|t| T3_ONLY_TYPES.contains(&(t.kind, t.ty))).collect();
+    let t = if !hand.is_empty() && rng.chance(1, 5) { *rng.pick(&hand) } else { rng.pick(schemas) };
     let mode = pick_mode(rng);
     let mut c = schema::gen(rng, &t.content, mode);
     if !t.map_shaped && rng.chance(1, 3) {
@@ -1266,6 +1395,7 @@ fn gen(rng: &mut Rng, n: usize, _tier: &str) -> Vec<Req> {
     }
     for _ in 0..n {
         reqs.push(match rng.below(20) {
+            0 if rng.chance(1, 2) => gen_escaped_state_key(rng, &schemas),
             0..=7 => gen_dispatch(rng, &schemas),
             8..=9 => gen_malformed(rng, &schemas),
             10..=15 => gen_content(rng, &schemas),
